@@ -638,6 +638,8 @@ class Fn:
         if l in self.mut_scalars and len(ds) == 1 and ds[0][0] == 'assign' and not self.local_name(l) \
                 and ds[0][3]['r'] == 'use' and ds[0][3]['a']['o'] == 'const':
             pass    # `&mut <literal>` temporary (e.g. `x > &mut 0.0`): still that literal
+        elif len(ds) > 1 and l not in self.mut_scalars and all(d[0] == 'assign' for d in ds) and all(_same_rv(d[3], ds[0][3]) for d in ds[1:]):
+            pass    # the same computation copied onto several paths (tail duplication by the CFG normalisation): one value
         elif len(ds) != 1 or ds[0][0] == 'partial' or l in self.mut_scalars:
             e = ('var', l, self.local_name(l))
             self._expr_cache[l] = e
@@ -822,6 +824,19 @@ CMP_CALL = {'gt': 'Gt', 'ge': 'Ge', 'lt': 'Lt', 'le': 'Le', 'eq': 'Eq', 'ne': 'N
 
 
 SWAP = {'Gt': 'Lt', 'Lt': 'Gt', 'Ge': 'Le', 'Le': 'Ge', 'Eq': 'Eq', 'Ne': 'Ne'}
+
+
+def _same_rv(a, b):
+    """two rvalues denote the same computation (ignoring source lines)"""
+    if type(a) is not type(b):
+        return False
+    if isinstance(a, dict):
+        ka = {k for k in a if k not in ('line', 'exp')}
+        kb = {k for k in b if k not in ('line', 'exp')}
+        return ka == kb and all(_same_rv(a[k], b[k]) for k in ka)
+    if isinstance(a, list):
+        return len(a) == len(b) and all(_same_rv(x, y) for x, y in zip(a, b))
+    return a == b
 
 
 def _orient(kind, a, b):
